@@ -35,7 +35,7 @@ def instances(tier):
     out = []
     quick = tier == "quick"
     N = 2 if quick else 3
-    b = dict(wall_s=70 if quick else 600, max_paths=600 if quick else 20000)
+    b = dict(wall_s=70 if quick else 240, max_paths=600 if quick else 20000)      # (thorough: 314 instances; 600 s each took 1.9 h end-to-end)
     fams = ["euler", "rk4", "sympl_euler", "dopri45", "backward_euler"]
     for fam in fams:
         kmax = KMAX[fam] if quick else int(KMAX[fam] * 1.5)
@@ -302,9 +302,10 @@ def scenario(c, inst):
         c.note("rows_at_fault", len(A.t))
         # (1) error type and cause
         if inst["exc"] == "ValueError" and st == "ok":
-            # KNOWN finding: RungeKuttaIntegrator.__call__ catches ValueError around step() (meant for the stage solver) and retries the step
+            # KNOWN finding (implicit schemes only since fix a48c06e): RungeKuttaIntegrator.__call__ catches ValueError around step()
+            # (meant for the stage solver) and retries the step
             c.check("c12.valueerror_from_rhs_is_reported", False, info="integrate() returned normally although the rhs raised ValueError",
-                    regions={"c12.valueerror_swallowed_by_retry": kind != "fixed" or fam in ("euler", "rk4", "midpoint")})
+                    regions={"c12.valueerror_swallowed_by_retry": kind == "implicit"})
             return
         if inst["exc"] == "KeyboardInterrupt":
             c.check("c12.keyboard_interrupt_propagates_as_itself", st == "kbd" and r is exc, info=dict(st=st, r=repr(r)))
